@@ -53,6 +53,7 @@ let () = run_table [
   "import", (fun toks -> res_s full (import (List.map packet_of toks)));
   "import_f9", (fun toks -> res_s (fun k -> key_s k ^ "|" ^ export_s (export k) ^ "|" ^ export_s (export (copy_prefix k))) (import_prefix_f9 (List.map packet_of toks)));
   "import_dup", (fun toks -> res_s (fun k -> key_s k) (import_prefix_dup (List.map packet_of toks)));
+  "import_oldself", (fun toks -> res_s (fun k -> key_s k ^ "|" ^ export_s (export k)) (import_old_selfsig (List.map packet_of toks)));
   "import_f2", (fun toks -> res_s (fun k -> key_s k ^ "|" ^ export_s (export k)) (import_prefix_f2 (List.map packet_of toks)));
   "add", (function [a; b] -> zs (Z.add (zi a) (zi b)) | _ -> failwith "args");
 ]
